@@ -1,6 +1,6 @@
 use anyhow::{bail, Error, Result};
 use dcbor::prelude::*;
-use bc_components::{tags, Digest};
+use bc_components::{tags, Digest, DigestProvider};
 #[cfg(feature = "encrypt")]
 use bc_components::EncryptedMessage;
 #[cfg(feature = "compress")]
@@ -108,6 +108,9 @@ impl CBORTaggedDecodable for Envelope {
                     .cloned()
                     .map(Self::from_untagged_cbor)
                     .collect::<Result<Vec<Self>, Error>>()?;
+                if !assertions.windows(2).all(|pair| pair[0].digest() < pair[1].digest()) {
+                    bail!("node assertions must be in strictly ascending digest order")
+                }
                 Ok(Self::new_with_assertions(subject, assertions)?)
             }
             CBORCase::Map(_) => {
